@@ -2126,7 +2126,12 @@ func (w *walker) bufferPrims(call *ast.CallExpr) []Node {
 		return &bits.Value{V: bits.Zero(1)}, true
 	}
 	fr := ip.NewFrame(w.c.FI)
-	for _, st := range w.c.FI.Decl.Body.List {
+	bufObj := w.c.Info.ObjectOf(id)
+	steps, okPath := straightLineTo(w.c.Info, w.c.FI.Decl.Body, call, bufObj)
+	if !okPath {
+		return nil
+	}
+	for _, st := range steps {
 		if fr.Err() != "" || captured != nil {
 			break
 		}
@@ -3104,4 +3109,75 @@ func (w *walker) typeSwitchTarget(v *ast.TypeSwitchStmt, bound *ast.Ident) ast.E
 		return tgt
 	}
 	return nil
+}
+
+// straightLineTo: the simple statements that run, in order, on the way from the top of body to the
+// statement that contains call — the statements in front of it in every enclosing block. Compound
+// statements on the way that do not contain the call are skipped when they do not mention buf (they
+// cannot change what the buffer holds) and make the walk fail when they do.
+func straightLineTo(info *types.Info, body *ast.BlockStmt, call *ast.CallExpr, buf types.Object) ([]ast.Stmt, bool) {
+	contains := func(n ast.Node) bool { return n != nil && n.Pos() <= call.Pos() && call.End() <= n.End() }
+	mentions := func(n ast.Node) bool {
+		found := false
+		ast.Inspect(n, func(m ast.Node) bool {
+			if id, ok := m.(*ast.Ident); ok && info.ObjectOf(id) == buf {
+				found = true
+			}
+			return !found
+		})
+		return found
+	}
+	var out []ast.Stmt
+	list := body.List
+	for depth := 0; depth < 12; depth++ {
+		var next []ast.Stmt
+		hit := false
+		for _, st := range list {
+			if !contains(st) {
+				switch st.(type) {
+				case *ast.IfStmt, *ast.ForStmt, *ast.RangeStmt, *ast.SwitchStmt, *ast.TypeSwitchStmt, *ast.SelectStmt, *ast.BlockStmt, *ast.LabeledStmt, *ast.GoStmt, *ast.DeferStmt:
+					if mentions(st) {
+						return nil, false
+					}
+					continue
+				}
+				out = append(out, st)
+				continue
+			}
+			hit = true
+			switch v := st.(type) {
+			case *ast.ExprStmt, *ast.AssignStmt, *ast.ReturnStmt:
+				out = append(out, st)
+				return out, true
+			case *ast.BlockStmt:
+				next = v.List
+			case *ast.IfStmt:
+				if v.Init != nil {
+					if contains(v.Init) {
+						out = append(out, v.Init)
+						return out, true
+					}
+					out = append(out, v.Init)
+				}
+				if contains(v.Cond) {
+					return nil, false
+				}
+				if contains(v.Body) {
+					next = v.Body.List
+				} else if v.Else != nil && contains(v.Else) {
+					next = []ast.Stmt{v.Else}
+				} else {
+					return nil, false
+				}
+			default:
+				return nil, false
+			}
+			break
+		}
+		if !hit {
+			return nil, false
+		}
+		list = next
+	}
+	return nil, false
 }
